@@ -314,6 +314,10 @@ type Ext struct {
 	NS   Names
 	D    Dict
 	PA   *[2]string
+	PM   *map[string]string   // pointers to maps: indexed like the map, wherever the pointer comes from
+	PMs  []*map[string]string // (a field, an element, a map value, a method result)
+	MPM  map[string]*map[string]string
+	PSl  []*[]string
 	AA   [2][2]string
 	IA   interface{} // holds a [2][2]string: an array that cannot be addressed
 	Xs   []Ext
@@ -322,6 +326,9 @@ type Ext struct {
 }
 
 func (x Ext) GetX() Ext { return mkExt(x.p+".GetX()", x.v, x.d-1) }
+func (x Ext) GetPM() *map[string]string {
+	return &map[string]string{"a": x.p + ".GetPM()[a]", "b": x.p + ".GetPM()[b]"}
+}
 
 func mkP(p string) P { return P{p: p, A: p + ".A", B: p + ".B", C: p + ".C"} }
 func mkQ(p string) Q { return Q{p: p, A: p + ".A", B: p + ".B", C: p + ".C"} }
@@ -351,6 +358,11 @@ func mkExt(p string, v, d int) Ext {
 	x.NS = Names{p + ".NS[0]", p + ".NS[1]"}
 	x.D = Dict{"a": p + ".D[a]", "b": p + ".D[b]"}
 	x.PA = &[2]string{p + ".PA[0]", p + ".PA[1]"}
+	pm := func(q string) *map[string]string { return &map[string]string{"a": q + "[a]", "b": q + "[b]"} }
+	x.PM = pm(p + ".PM")
+	x.PMs = []*map[string]string{pm(p + ".PMs[0]"), pm(p + ".PMs[1]")}
+	x.MPM = map[string]*map[string]string{"a": pm(p + ".MPM[a]"), "b": pm(p + ".MPM[b]")}
+	x.PSl = []*[]string{{p + ".PSl[0][0]", p + ".PSl[0][1]"}, {p + ".PSl[1][0]"}}
 	x.AA = [2][2]string{{p + ".AA[0][0]", p + ".AA[0][1]"}, {p + ".AA[1][0]", p + ".AA[1][1]"}}
 	x.IA = [2][2]string{{p + ".IA[0][0]", p + ".IA[0][1]"}, {p + ".IA[1][0]", p + ".IA[1][1]"}}
 	if v == 1 {
@@ -365,6 +377,10 @@ func mkExt(p string, v, d int) Ext {
 		x.NS = Names{p + ".NS[0]"}
 		x.D = Dict{"b": p + ".D[b]"}
 		x.PA = nil
+		x.PM = nil
+		x.PMs = []*map[string]string{nil, pm(p + ".PMs[1]")}
+		x.MPM = map[string]*map[string]string{"a": nil, "b": pm(p + ".MPM[b]")}
+		x.PSl = []*[]string{nil, {p + ".PSl[1][0]"}}
 	}
 	if d > 0 {
 		x.Xs = []Ext{mkExt(p+".Xs[0]", v, d-1), mkExt(p+".Xs[1]", v, d-1)}
